@@ -127,30 +127,45 @@ class Views:
     pass
 
 
+class ExportFailure(Exception):
+    """an exporter raised on a legal SoC, or its text is unparseable: reported as a violation (rule export.fail)"""
+
+
 def make_views(b):
     from litex.soc.integration import export
     soc = b.soc
     v = Views()
+    def call(what, fn, *a, **k):
+        try:
+            with Watchdog(60, what):
+                return fn(*a, **k)
+        except TimeoutError:
+            raise
+        except Exception as e:
+            raise ExportFailure(f"{what} raises {type(e).__name__}: {e}")
     with quiet():
-        v.json_text = export.get_csr_json(soc.csr_regions, soc.constants, soc.mem_regions)
-        v.csv_text = export.get_csr_csv(soc.csr_regions, soc.constants, soc.mem_regions)
+        v.json_text = call("get_csr_json", export.get_csr_json, soc.csr_regions, soc.constants, soc.mem_regions)
+        v.csv_text = call("get_csr_csv", export.get_csr_csv, soc.csr_regions, soc.constants, soc.mem_regions)
         # exactly the call Builder._generate_includes makes (plus field accessors so that their text is checked too)
-        v.hdr_text = export.get_csr_header(regions=soc.csr_regions, constants=soc.constants,
-                                           csr_base=soc.mem_regions["csr"].origin,
-                                           with_access_functions=True, with_fields_access_functions=True)
-        v.hdr_text_nobase = export.get_csr_header(regions=soc.csr_regions, constants=soc.constants,
-                                                  csr_base=soc.mem_regions["csr"].origin, with_csr_base_define=False,
-                                                  with_access_functions=False)
-        v.svd_text = export.get_csr_svd(soc, description="c14")
-        v.memh_text = export.get_mem_header(soc.mem_regions)
-        v.soch_text = export.get_soc_header(soc.constants)
-    v.js = json.loads(v.json_text)
-    v.csv = P.parse_csv(v.csv_text)
-    v.hdr = P.CHeader(v.hdr_text)
-    v.hdr_nobase, _ = P.parse_defines(v.hdr_text_nobase)
-    v.svd = P.parse_svd(v.svd_text)
-    v.memh, v.memlist = P.parse_mem_header(v.memh_text)
-    v.soch = P.parse_soc_header(v.soch_text)
+        v.hdr_text = call("get_csr_header", export.get_csr_header, regions=soc.csr_regions, constants=soc.constants,
+                          csr_base=soc.mem_regions["csr"].origin,
+                          with_access_functions=True, with_fields_access_functions=True)
+        v.hdr_text_nobase = call("get_csr_header", export.get_csr_header, regions=soc.csr_regions, constants=soc.constants,
+                                 csr_base=soc.mem_regions["csr"].origin, with_csr_base_define=False,
+                                 with_access_functions=False)
+        v.svd_text = call("get_csr_svd", export.get_csr_svd, soc, description="c14")
+        v.memh_text = call("get_mem_header", export.get_mem_header, soc.mem_regions)
+        v.soch_text = call("get_soc_header", export.get_soc_header, soc.constants)
+    try:
+        v.js = json.loads(v.json_text)
+        v.csv = P.parse_csv(v.csv_text)
+        v.hdr = P.CHeader(v.hdr_text)
+        v.hdr_nobase, _ = P.parse_defines(v.hdr_text_nobase)
+        v.svd = P.parse_svd(v.svd_text)
+        v.memh, v.memlist = P.parse_mem_header(v.memh_text)
+        v.soch = P.parse_soc_header(v.soch_text)
+    except (P.ParseError, ValueError, SyntaxError) as e:
+        raise ExportFailure(f"exported text is outside the format its consumers expect: {type(e).__name__}: {e}")
     return v
 
 
@@ -852,7 +867,11 @@ def prepare(cfg):
 
 def run_soc(cfg, seed):
     name = cfg[0]
-    b, v, static, tests = prepare(cfg)
+    try:
+        b, v, static, tests = prepare(cfg)
+    except ExportFailure as e:
+        return dict(cfg=name, cfg_args=list(cfg[1:]), exhaustive=False, evaluations=0, distinct=0,
+                    violations=[dict(rule="export.fail", msg=str(e)[:600], detail=dict(static=True), trace=None)], sample=None)
     if seed:
         k = seed % max(1, len(tests))
         tests = tests[k:] + tests[:k]
@@ -861,6 +880,7 @@ def run_soc(cfg, seed):
     fb = S.FastBench(b)
     failed_regs = set()
     cand = []            # (kind, msg, detail, test)
+    executed = []
     evaluations = 0
     targets = set()
     masked = 0
@@ -872,6 +892,7 @@ def run_soc(cfg, seed):
             continue
         res = fb.run(t.script)
         fails = t.check(res)
+        executed.append(t.tid)
         evaluations += t.nacc
         targets.add(t.target)
         cover["tests"] += 1
@@ -899,7 +920,7 @@ def run_soc(cfg, seed):
     any_addr = any(k == "addr" and not t.disputed for k, _, _, t in cand)
     for kind, msg, detail, t in cand:
         reg = b.regs.get(t.target.split(".")[0])
-        if t.disputed and kind in ("addr", "order", "csrmem"):
+        if t.disputed and kind in ("addr", "csrmem"):
             # the formats publish different addresses for this item and this one is wrong: name the format
             rule = ("csr.mem." if kind == "csrmem" else "csr.addr.") + str(t.variant)
         else:
@@ -919,6 +940,11 @@ def run_soc(cfg, seed):
             if rp is not None:
                 break
         if rp is None:
+            # the failure depends on what earlier tests left behind (a status register the design drives): replay the
+            # whole history up to and including the failing test on the stock simulator
+            msg, detail, t = lst[0]
+            rp = confirm(cfg, t, rule, history=executed[:executed.index(t.tid) + 1])
+        if rp is None:
             raise MachineryError(f"{name}: {rule} ({[x[2].tid for x in lst[:4]]}) found with the fast stepper does not reproduce "
                                  "from reset on litex.gen.sim")
         violations.append(dict(rule=rule, msg=msg + (f" [+{len(lst) - 1} more of this class in this SoC]" if len(lst) > 1 else ""),
@@ -936,19 +962,26 @@ def run_soc(cfg, seed):
                 distinct=len(targets), conformed=fb.conformed, cycles=fb.ncyc, masked_tests=masked, cover=cover, sample=sample)
 
 
-def confirm(cfg, t, rule):
-    """Re-runs one failing test from reset on LiteX's stock simulator; the same failure class must show."""
+def confirm(cfg, t, rule, history=None):
+    """Re-runs one failing test from reset on LiteX's stock simulator (optionally preceded by the scripts of the tests
+    that ran before it); the failure must show again."""
     b2, v2, _, tests2 = prepare(cfg)
-    t2 = [x for x in tests2 if x.tid == t.tid]
-    if not t2:
+    byid = {x.tid: x for x in tests2}
+    if t.tid not in byid or any(h not in byid for h in history or []):
         raise MachineryError(f"{cfg[0]}: test {t.tid} is not regenerated deterministically")
-    t2 = t2[0]
-    with Watchdog(900, "stock simulation"):
-        res = S.stock_run(b2, t2.script)
+    t2 = byid[t.tid]
+    script = []
+    for h in (history or [t.tid])[:-1]:
+        script += byid[h].script
+    skip = {k: sum(1 for st in script if st[0] in kinds) for k, kinds in (("reads", ("r", "w")), ("snaps", ("snap",)), ("gets", ("get",)))}
+    with Watchdog(1800, "stock simulation"):
+        res = S.stock_run(b2, script + t2.script)
+    res = {k: x[skip[k]:] for k, x in res.items()}
     fails = t2.check(res)
     if not fails:
         return None
-    return dict(reproduced=True, simulator="litex.gen.sim.run_simulation", kinds=sorted({f[0] for f in fails}), msg=fails[0][1])
+    return dict(reproduced=True, simulator="litex.gen.sim.run_simulation", kinds=sorted({f[0] for f in fails}), msg=fails[0][1],
+                history=list(history) if history else None)
 
 
 # ------------------------------------------------------------------------------------------------------------------
@@ -1020,6 +1053,10 @@ def run_image_case(dw, endian, case, tmp):
         if total == 0:
             return 0, None, True        # an empty image may be refused
         return 0, dict(kind="refused", msg=f"get_mem_data refuses a {total}-byte image: AssertionError {e}"), True
+    except TimeoutError:
+        raise
+    except Exception as e:
+        return 0, dict(kind="crash", msg=f"get_mem_data(data_width={dw}, endianness={endian}, offset={offset:#x}) form={form} lengths={n} raises {type(e).__name__}: {e}"), True
     ncmp = 0
     for fn, base, data in files:
         for k, byte in enumerate(data):
@@ -1093,14 +1130,17 @@ def replay(rec):
             case = (case[0], tuple(case[1]) if isinstance(case[1], list) else case[1], case[2], case[3], case[4])
             n, f, ref = run_image_case(cfg[2], cfg[3], case, tmp)
         return dict(cfg=rec["cfg"], rule=rule, reproduced=bool(f), msg=f["msg"] if f else None)
-    b, v, static, tests = prepare(cfg)
+    try:
+        b, v, static, tests = prepare(cfg)
+    except ExportFailure as e:
+        return dict(cfg=rec["cfg"], rule=rule, reproduced=rule == "export.fail", msg=str(e)[:600])
     if detail.get("static"):
         hit = [s for s in static if s["rule"] == rule]
         return dict(cfg=rec["cfg"], rule=rule, reproduced=bool(hit), msg=hit[0]["msg"] if hit else None)
     t = [x for x in tests if x.tid == detail.get("test")]
     if not t:
         return dict(cfg=rec["cfg"], rule=rule, reproduced=False, msg="test not found")
-    res = S.stock_run(b, t[0].script)
-    fails = t[0].check(res)
-    return dict(cfg=rec["cfg"], rule=rule, reproduced=bool(fails), simulator="litex.gen.sim.run_simulation",
-                msg=fails[0][1] if fails else None, kinds=sorted({f[0] for f in fails}))
+    hist = (rec.get("replayed") or {}).get("history")
+    rp = confirm(cfg, t[0], rule, history=hist)
+    return dict(cfg=rec["cfg"], rule=rule, reproduced=rp is not None, simulator="litex.gen.sim.run_simulation",
+                msg=rp["msg"] if rp else None, kinds=rp["kinds"] if rp else [])
